@@ -561,6 +561,32 @@ var rulePlainReturns = &core.Rule{ID: "R11.3", Min: 4,
 					s.OK(key, c.Pos(r.Pos()), "no charset")
 				case "utf-8":
 					under := (p.valid != nil && dominatedByCallEdge(r.Block(), p.valid, true)) || (p.ascii != nil && dominatedByCallEdge(r.Block(), p.ascii, true))
+					if !under && p.valid != nil && r.Parent() == p.valid.Parent() {
+						// a composed condition (isUTF8 || ascii(...)): with both tests answering false, every other
+						// condition going either way, this return must be out of reach
+						ev := newEval(c)
+						ev.Env = fde.Env{p.valid: constant.MakeBool(false)}
+						if p.ascii != nil && p.ascii.Parent() == r.Parent() {
+							ev.Env[p.ascii] = constant.MakeBool(false)
+						}
+						// from the nearest block through which every path to the tests and to this return goes
+						start := r.Block()
+						for start != nil && !(start.Dominates(p.valid.Block()) && (p.ascii == nil || p.ascii.Parent() != r.Parent() || start.Dominates(p.ascii.Block()))) {
+							start = start.Idom()
+						}
+						if start == nil {
+							start = r.Parent().Blocks[0]
+						}
+						if exits, err := ev.Walk(start, nil, nil, 10); err == nil {
+							reach := false
+							for _, x := range exits {
+								if x.Ret == r {
+									reach = true
+								}
+							}
+							under = !reach
+						}
+					}
 					if !under && p.valid == nil && handWrittenUTF8(p) {
 						s.Und(key+" utf-8", c.Pos(r.Pos()), "the sniffer does not call utf8.Valid but decodes runes itself: whether that amounts to validation is not decided here")
 						continue
@@ -574,7 +600,7 @@ var rulePlainReturns = &core.Rule{ID: "R11.3", Min: 4,
 			switch {
 			case bomCall != nil && v == ssa.Value(bomCall):
 				s.OK(key, c.Pos(r.Pos()), "BOM name")
-			case p.latin != nil && v == ssa.Value(p.latin):
+			case p.latin != nil && sameLatinCall(v, p.latin):
 				s.OK(key, c.Pos(r.Pos()), "Latin fallback")
 			default:
 				s.Bad(key, c.Pos(r.Pos()), "return of a charset that is neither the BOM name, utf-8 under validation, nor the Latin fallback")
@@ -623,6 +649,23 @@ var rulePlainReturns = &core.Rule{ID: "R11.3", Min: 4,
 			}
 		}
 	}}
+
+// sameLatinCall: v is the Latin fallback call, or another call of the same function on the same buffer.
+func sameLatinCall(v ssa.Value, latin *ssa.Call) bool {
+	if v == ssa.Value(latin) {
+		return true
+	}
+	call, ok := v.(*ssa.Call)
+	if !ok || call.Call.StaticCallee() == nil || call.Call.StaticCallee() != latin.Call.StaticCallee() || len(call.Call.Args) != len(latin.Call.Args) {
+		return false
+	}
+	for i := range call.Call.Args {
+		if call.Call.Args[i] != latin.Call.Args[i] {
+			return false
+		}
+	}
+	return true
+}
 
 // handWrittenUTF8: the plain sniffer (or a helper it calls) decodes runes with
 // unicode/utf8 functions other than Valid / FullRune.
